@@ -2,6 +2,8 @@ package main
 
 import (
 	"fmt"
+	"github.com/Trendyol/go-dcp/config"
+	"os"
 	"runtime"
 	"sync"
 
@@ -85,6 +87,7 @@ func init() {
 				{Scenario: "c09_regets", Params: mustJSON(struct{}{}), Bound: 0, Shards: 2, Note: "one discovery object asked three times while the numbering changes (dynamic membership through the bus)"},
 				{Scenario: "c09_getrace", Params: mustJSON(struct{}{}), Bound: 0, Shards: 2, Note: "a renumbering announced at every scheduling point of a running Get(): the result is the chunk of the old or of the new numbering"},
 				{Scenario: "c10_sd", Params: mustJSON(struct{}{}), Bound: 0, Shards: 4, Note: "leader-assigned numbering: at every instant members that agree on the group size hold distinct numbers (also after a failed Rebalance RPC in steady state)"},
+				{Scenario: "c10_first", Params: mustJSON(FirstParams{BackToBack: true}), Bound: 2, Note: "two numberings announced back to back: every schedule of the delivery threads leaves the member with the partition of the latest"},
 				{Scenario: "c10_first", Params: mustJSON(FirstParams{Two: true}), Bound: 0, Note: "two numberings announced before the first Get(): the partition is derived from the latest"},
 				{Scenario: "c11_burst", Params: mustJSON(BurstParams{Membership: "dynamic", MaxN: 2}), Bound: 0, Shards: 8, Note: "the real Dcp: after any burst of 1..2 renumberings (also one arriving while the re-open is running) the stream covers the chunk of the latest numbering"},
 				{Scenario: "c10_cb", Params: mustJSON(CBParams{Initial: 3, Event: "hblost", Perms: 1}), Bound: 0, Shards: 4, Note: "couchbase membership: a running instance that drops out of the group (lost heart-beats) does not keep streaming its old share"},
@@ -172,6 +175,44 @@ func init() {
 					}
 				}
 			}
+			// the same through the documented configuration sources: member number and group size each come from
+			// the file or from the environment variable (README), defaults applied by the real ApplyDefaults()
+			const envTot, envMem = "GO_DCP__DCP_GROUP_MEMBERSHIP_TOTALMEMBERS", "GO_DCP__DCP_GROUP_MEMBERSHIP_MEMBERNUMBER"
+			for _, n := range []int{8, 64} {
+				for t := 1; t <= 8; t++ {
+					for src := 0; src < 4; src++ { // bit 0: total from env, bit 1: member from env
+						chunks := make([][]uint16, t)
+						for m := 1; m <= t; m++ {
+							os.Unsetenv(envTot)
+							os.Unsetenv(envMem)
+							var c config.Dcp
+							c.Dcp.Group.Membership.Type = "static"
+							if src&1 != 0 {
+								os.Setenv(envTot, fmt.Sprint(t))
+							} else {
+								c.Dcp.Group.Membership.TotalMembers = t
+							}
+							if src&2 != 0 {
+								os.Setenv(envMem, fmt.Sprint(m))
+							} else {
+								c.Dcp.Group.Membership.MemberNumber = m
+							}
+							c.ApplyDefaults()
+							d := stream.NewVBucketDiscovery(nil, &c, n, EventBus.New())
+							chunks[m-1] = d.Get()
+							res.Evaluations++
+						}
+						os.Unsetenv(envTot)
+						os.Unsetenv(envMem)
+						res.Distinct++
+						if msg := checkPartition(n, t, chunks); msg != "" && len(res.Violations) < 10 {
+							res.Violations = append(res.Violations, pureViolation("C09", fmt.Sprintf("static membership configured through %s (group size) and %s (member number): VBucketDiscovery.Get %s",
+								[]string{"the file", "the environment"}[src&1], []string{"the file", "the environment"}[src>>1], msg)))
+						}
+					}
+				}
+			}
+			resetGlobals()
 			res.States = res.Evaluations
 			res.Transitions = res.Evaluations
 			res.Samples = []any{
